@@ -223,20 +223,24 @@ def _root_.Chrono.M.Tz.Alt.find_local_time_type (a : Alt) (t : Int) : Option Ltt
       some (if alt_is_dst a current_year t then a.dst else a.std)
     else none
 
-/-- `AlternateTime::find_local_time_type_from_local`, with `current_year = local_time.year()` and
-`ℓ = local_time.and_utc().timestamp()` -/
-def _root_.Chrono.M.Tz.Alt.find_local_time_type_from_local (a : Alt) (current_year : Int) (ℓ : Int) : Mapped Ltt :=
-  let dst_start_transition_start := unix_time a.dstStart current_year 0 + a.dstStartTime
-  let dst_start_transition_end :=
-    unix_time a.dstStart current_year 0 + a.dstStartTime + a.dst.off - a.std.off
-  let dst_end_transition_start := unix_time a.dstEnd current_year 0 + a.dstEndTime
-  let dst_end_transition_end :=
-    unix_time a.dstEnd current_year 0 + a.dstEndTime + a.std.off - a.dst.off
-  let startMonth := (transition_date a.dstStart current_year).1
-  let endMonth := (transition_date a.dstEnd current_year).1
+/-- the four windows `AlternateTime::find_local_time_type_from_local` computes for `current_year`:
+`(dst_start_transition_start, dst_start_transition_end, dst_end_transition_start, dst_end_transition_end)` -/
+def alt_windows (a : Alt) (current_year : Int) : Int × Int × Int × Int :=
+  (unix_time a.dstStart current_year 0 + a.dstStartTime,
+   unix_time a.dstStart current_year 0 + a.dstStartTime + a.dst.off - a.std.off,
+   unix_time a.dstEnd current_year 0 + a.dstEndTime,
+   unix_time a.dstEnd current_year 0 + a.dstEndTime + a.std.off - a.dst.off)
+
+/-- the `match self.std.ut_offset.cmp(&self.dst.ut_offset)` of
+`AlternateTime::find_local_time_type_from_local`; `startFirst` is the hemisphere test -/
+def alt_classify (a : Alt) (startFirst : Bool) (w : Int × Int × Int × Int) (ℓ : Int) : Mapped Ltt :=
+  let dst_start_transition_start := w.1
+  let dst_start_transition_end := w.2.1
+  let dst_end_transition_start := w.2.2.1
+  let dst_end_transition_end := w.2.2.2
   if a.std.off = a.dst.off then .single a.std
   else if a.std.off < a.dst.off then
-    if startMonth < endMonth then
+    if startFirst then
       -- northern hemisphere
       if ℓ ≤ dst_start_transition_start then .single a.std
       else if ℓ > dst_start_transition_start ∧ ℓ < dst_start_transition_end then .none
@@ -251,7 +255,7 @@ def _root_.Chrono.M.Tz.Alt.find_local_time_type_from_local (a : Alt) (current_ye
       else if ℓ ≥ dst_start_transition_start ∧ ℓ < dst_start_transition_end then .none
       else .single a.dst
   else
-    if startMonth < endMonth then
+    if startFirst then
       -- southern hemisphere reverse DST
       if ℓ < dst_start_transition_end then .single a.std
       else if ℓ ≥ dst_start_transition_end ∧ ℓ ≤ dst_start_transition_start then .ambiguous a.std a.dst
@@ -265,6 +269,19 @@ def _root_.Chrono.M.Tz.Alt.find_local_time_type_from_local (a : Alt) (current_ye
       else if ℓ ≥ dst_end_transition_end ∧ ℓ < dst_start_transition_end then .single a.std
       else if ℓ ≥ dst_start_transition_end ∧ ℓ ≤ dst_start_transition_start then .ambiguous a.std a.dst
       else .single a.dst
+
+/-- `AlternateTime::find_local_time_type_from_local`, with `current_year = local_time.year()` and
+`ℓ = local_time.and_utc().timestamp()`.  Hemisphere test as repaired in /repo (finding F16):
+`dst_start_transition_start < dst_end_transition_start`. -/
+def _root_.Chrono.M.Tz.Alt.find_local_time_type_from_local (a : Alt) (current_year : Int) (ℓ : Int) : Mapped Ltt :=
+  let w := alt_windows a current_year
+  alt_classify a (decide (w.1 < w.2.2.1)) w ℓ
+
+/-- the pinned 0.4.40 variant (before the repair of F16): hemisphere decided by comparing the
+MONTHS of the two rule days only.  Kept for the counterexample in Props/C05.lean; not used by the driver. -/
+def alt_from_local_pinned_month_only (a : Alt) (current_year : Int) (ℓ : Int) : Mapped Ltt :=
+  alt_classify a (decide ((transition_date a.dstStart current_year).1 < (transition_date a.dstEnd current_year).1))
+    (alt_windows a current_year) ℓ
 
 /-- `TransitionRule::find_local_time_type` -/
 def _root_.Chrono.M.Tz.Rule.find_local_time_type (r : Rule) (t : Int) : Option Ltt :=
